@@ -143,6 +143,26 @@ class OpaqueT(Shape):
         self.tag = tag
 
 
+class KeySet(Shape):
+    """A python set of records whose __eq__/__hash__ identify them by `key` fields: modelled as a
+    finite map key -> record (the representation invariant of such a set).  The declared key must
+    be justified by a proved lemma about the class's real __eq__."""
+    kind = "keyset"
+
+    def __init__(self, elem, key):
+        self.elem = elem
+        self.key = tuple(key)
+
+
+class DictOpt(Shape):
+    """dict with the given constant keys, each present or absent (symbolically)."""
+    kind = "dictopt"
+
+    def __init__(self, entries, always=()):
+        self.entries = entries
+        self.always = set(always)
+
+
 CONTRACTS: dict[str, type] = {}
 LEMMAS: dict[str, type] = {}
 
@@ -214,3 +234,22 @@ class SetSeq(Shape):
 
     def __init__(self, elem):
         self.elem = elem
+
+
+def keyset_has(bucket, keyfields, keys):
+    """Does the set of records contain an element whose key fields equal `keys`?"""
+    return any(tuple(getattr(e, f) for f in keyfields) == tuple(keys) for e in bucket)
+
+
+def keyset_get(bucket, keyfields, keys):
+    """The element with the given key (must exist)."""
+    for e in bucket:
+        if tuple(getattr(e, f) for f in keyfields) == tuple(keys):
+            return e
+    raise KeyError(keys)
+
+
+def same_record(a, b):
+    """Field-by-field equality of two dataclass records (ignores a custom __eq__)."""
+    import dataclasses
+    return all(getattr(a, f.name) == getattr(b, f.name) for f in dataclasses.fields(a))
